@@ -117,7 +117,7 @@ def handle : Handler := fun op a => do
     let lo ← asOpt asNat (optField a "lo")
     let hi ← asOpt asNat (optField a "hi")
     match SV.Model.C01Regex.updateQuantifier (← Rx.decV (optField a "v")) items lo hi with
-    | .ok out => return jobj [("ok", .arr (out.map Rx.encItem))]
+    | .ok out w => return jobj [("ok", .arr (out.map Rx.encItem)), ("rewrote", .bool w)]
     | .internalError => return .str "InternalError"
   | "frag" =>
     -- {nn, schema, f, c} → is the schema in the fragment of C01_nullable_exact (with these fuels)?
